@@ -703,6 +703,8 @@ fn gen_case(rng: &mut Rng, canonical: bool, force: Option<fn(&mut Rng, &mut usiz
             crate::fam_norm::gen_contract_stream(rng, &cat, sticky)
         }
         else if canonical { gen_canonical_stream(rng, &cat, cut) } else { gen_arbitrary_stream(rng, &cat) };
+    let mut evs = evs;
+    if mon == Mon::C01 && idx > 2 && !wx.has_norm() { vary_parsing_finished(rng, &mut evs); }
     SKIP_BIAS.with(|b| b.set(false));
     let mut ops: Vec<POp> = vec![];
     for e in evs {
@@ -768,6 +770,18 @@ pub fn gen_comb(rng: &mut Rng, idx: usize) -> Case {
     let _ = idx;
     let canonical = rng.chance(1, 3);
     gen_case(rng, canonical, None, Mon::None, idx)
+}
+
+/// streams as a CUSTOM `Runner` may deliver them to a writer (C01: "a parser error was delivered"): the
+/// `ParsingFinished` summary event is absent, or its `parser_errors` field does not match the errors delivered
+pub fn vary_parsing_finished(rng: &mut Rng, evs: &mut Vec<AEv>) {
+    match rng.below(8) {
+        0 => evs.retain(|e| !matches!(e, AEv::ParsingFinished(..))),
+        1 => for e in evs.iter_mut() {
+            if let AEv::ParsingFinished(_, _, _, _, n) = e { *n = if *n == 0 { 1 } else { 0 }; }
+        },
+        _ => {}
+    }
 }
 
 /// C12: canonical normalized streams through `Summarize`, optionally inside `Repeat` /
@@ -916,7 +930,9 @@ pub fn gen_exit(rng: &mut Rng, idx: usize) -> Case {
     SKIP_BIAS.with(|b| b.set(fos_focus));
     let cat = Rc::new(Cat::new(&specs));
     let cut = rng.chance(1, 6);
-    let evs = match dir { Some((_, e)) => e, None => gen_canonical_stream(rng, &cat, cut) };
+    let is_dir = dir.is_some();
+    let mut evs = match dir { Some((_, e)) => e, None => gen_canonical_stream(rng, &cat, cut) };
+    if !is_dir { vary_parsing_finished(rng, &mut evs); }
     SKIP_BIAS.with(|b| b.set(false));
 
     let mut wx = core.clone();
